@@ -796,14 +796,16 @@ static void gen_expr(Node *node) {
       // If the lhs is a bitfield, we need to read the current value
       // from memory and merge it with a new value.
       Member *mem = node->lhs->member;
+      long ones = (mem->bit_width >= 64) ? -1L : (1L << mem->bit_width) - 1;
       println("  mov %%rax, %%rdi");
-      println("  and $%ld, %%rdi", (1L << mem->bit_width) - 1);
+      println("  mov $%ld, %%r9", ones);
+      println("  and %%r9, %%rdi");
       println("  shl $%d, %%rdi", mem->bit_offset);
 
       println("  mov (%%rsp), %%rax");
       load(mem->ty);
 
-      long mask = ((1L << mem->bit_width) - 1) << mem->bit_offset;
+      long mask = ones << mem->bit_offset;
       println("  mov $%ld, %%r9", ~mask);
       println("  and %%r9, %%rax");
       println("  or %%rdi, %%rax");
